@@ -63,10 +63,14 @@ def regexMatch (pattern s : String) : Bool :=
 
 def eql (a b : Val) : Bool :=
   match a with
-  | .regex p => regexMatch p (stringOperand b)
+  | .regex p =>
+    match b with
+    | .json (.arr ys) => ys.any fun i => regexMatch p (stringOfJson i)   -- any-match
+    | _ => regexMatch p (stringOperand b)
   | .json (.arr xs) =>
     match b with
     | .json (.arr ys) => Json.beq (.arr xs) (.arr ys)                 -- reflect.DeepEqual
+    | .regex p => xs.any fun i => regexMatch p (stringOfJson i)
     | _ => xs.any fun i => stringOfJson i == stringOperand b
   | _ =>
     match b with
